@@ -217,7 +217,7 @@ def hyp_search(ctx, kind, strategy, check_case, max_examples, seed_salt=0, max_r
     from hypothesis import HealthCheck, Phase, given, settings
 
     if shrink_budget_s is None:
-        shrink_budget_s = 20.0 if ctx.tier == "quick" else 120.0
+        shrink_budget_s = 8.0 if ctx.tier == "quick" else 120.0
     muted = set()
     state = {"t_fail": None, "best": None}
 
